@@ -25,7 +25,9 @@ def float_tok(x):
     return 'f%d/%d' % (num, scale)
 
 
-def val_tokens(v):
+def val_tokens(v, iter_sets=False):
+    """prefix tokens; set members in canonical order, or (iter_sets) in this process's iteration order - what an
+    order-sensitive consumer (ordered-mode DeepHash, DeepSearch indexes) actually sees"""
     t = type(v)
     if v is None:
         return ['N']
@@ -45,17 +47,18 @@ def val_tokens(v):
     if t in (list, tuple):
         out = [{list: 'L', tuple: 'U'}[t] + str(len(v))]
         for x in v:
-            out += val_tokens(x)
+            out += val_tokens(x, iter_sets)
         return out
     if t in (set, frozenset):
         out = [{set: 'S', frozenset: 'Z'}[t] + str(len(v))]
-        for toks in sorted((val_tokens(x) for x in v), key=lambda ts: ' '.join(ts)):      # canonical member order
+        members = [val_tokens(x, iter_sets) for x in v]
+        for toks in (members if iter_sets else sorted(members, key=lambda ts: ' '.join(ts))):      # canonical member order
             out += toks
         return out
     if t is dict:
         out = ['D%d' % len(v)]
         for k, x in v.items():
-            out += val_tokens(k) + val_tokens(x)
+            out += val_tokens(k, iter_sets) + val_tokens(x, iter_sets)
         return out
     raise OutOfUniverse(repr(t))
 
